@@ -126,6 +126,16 @@ pub fn build_evaluator(node: &AstNode) -> Result<Evaluator> {
   }
 }
 
+/// Returns the result of an arithmetic operator as a value:
+/// a result outside the range of numbers is `null`, never an infinity.
+fn finite_or_null(number: FeelNumber, operator: &str) -> Value {
+  if bifs::core::is_finite(&number) {
+    Value::Number(number)
+  } else {
+    value_null!("[{}] the result is out of range", operator)
+  }
+}
+
 ///
 fn build_add(lhs: &AstNode, rhs: &AstNode) -> Result<Evaluator> {
   let lhe = build_evaluator(lhs)?;
@@ -135,7 +145,7 @@ fn build_add(lhs: &AstNode, rhs: &AstNode) -> Result<Evaluator> {
     let rhv = rhe(scope) as Value;
     match lhv {
       Value::Number(lh) => match rhv {
-        Value::Number(rh) => Value::Number(lh + rh),
+        Value::Number(rh) => finite_or_null(lh + rh, "addition"),
         value @ Value::Null(_) => value,
         _ => value_null!("addition err 1"),
       },
@@ -442,7 +452,7 @@ fn build_div(lhs: &AstNode, rhs: &AstNode) -> Result<Evaluator> {
           if rh.abs() == FeelNumber::zero() {
             value_null!("[division] division by zero")
           } else {
-            Value::Number(lh / rh)
+            finite_or_null(lh / rh, "division")
           }
         }
         _ => value_null!("[division] incompatible types: {} / {}", lhv, rhv),
@@ -1184,7 +1194,7 @@ fn build_mul(lhs: &AstNode, rhs: &AstNode) -> Result<Evaluator> {
     let rhv = rhe(scope) as Value;
     match lhv {
       Value::Number(lh) => match rhv {
-        Value::Number(rh) => Value::Number(lh * rh),
+        Value::Number(rh) => finite_or_null(lh * rh, "multiplication"),
         _ => value_null!("[multiplication] incompatible types: {} * {}", lhv, rhv),
       },
       value @ Value::Null(_) => value,
@@ -1606,7 +1616,7 @@ fn build_sub(lhs: &AstNode, rhs: &AstNode) -> Result<Evaluator> {
     match lhv {
       Value::Number(ref lh) => {
         if let Value::Number(ref rh) = rhv {
-          return Value::Number(*lh - *rh);
+          return finite_or_null(*lh - *rh, "subtraction");
         }
       }
       Value::DateTime(ref lh) => {
